@@ -88,7 +88,8 @@ def comprehension(eng, e, st, kind):
         raise Unsupported("async comprehension")
     label = eng.comp_ids.get(id(e))
     has_spec = eng.contract is not None and label in eng.contract.loops
-    if has_spec and kind in ("list", "dict") and not eng.spec:
+    if has_spec and not eng.spec and (kind == "list" or (kind == "dict" and eng.contract.loops[label].get("invariant"))):
+        # (a dict comprehension is run as a loop only when the sidecar gives it an invariant: the exact summary is stronger)
         return as_loop(eng, e, gen, st, label)
     out = []
     for itv, s in eng.ev(gen.iter, st):
